@@ -19,7 +19,7 @@ CLAIMED = {
          'Trusts the reference batcher (DESIGN.md App. B) and the rec recorder; system ARG_MAX limiter never binding here.', 'DESIGN.md §3 C04'),
  'C05': ('property-based testing + bounded-exhaustive enumeration: all strings over a separator/quote/escape alphabet x all cut sets (chunking invariance, reference splitter), random byte strings x chunkings, delimiter modes; hook + binary end-to-end sample',
          'Exploration: exhaustive over strings up to 6 (thorough 7, and 8 with single cuts) symbols x every way of cutting the stream; random inputs to ~20 KiB straddling the 4096-byte refill edge, invalid UTF-8 included.',
-         'Readers reached through the verif-hooks function read_args (chunk-controlled Read); 1/30 random cases also through the real binary and a pipe. Reference splitter covers only what the statement fixes.', 'DESIGN.md §3 C05'),
+         'Readers reached through the verif-hooks function read_args (chunk-controlled Read); 1/30 random cases (1/12 in delimiter mode, there also through -n 1 / -I routes) through the real binary and a pipe. Reference splitter covers only what the statement fixes.', 'DESIGN.md §3 C05'),
  'C07': ('property-based testing: generated trees with hostile UTF-8 names; byte-exact -print0/-print output vs reference walk; real find|xargs -0 pipeline delivering to a recorder command',
          'Exploration: tens of thousands of trees whose names contain blanks, newlines, quotes, backslashes, leading dashes, glob characters and multi-byte text (up to 255-byte names, outputs past 8 KiB); stdout equals the concatenation of reference paths + terminator, and the built find | xargs -0 rec pipeline delivers each path exactly once unmodified.',
          'Trusts the reference walker and the rec recorder; names are valid UTF-8 (the statement\'s domain); the pipe is modelled by capturing find\'s stdout and feeding it to xargs\' stdin.', 'DESIGN.md §3 C07'),
@@ -53,7 +53,7 @@ CLAIMED = {
  'C18': ('property-based testing: generated lists of starting points (every spelling of one directory, files, links, missing names, duplicates) given as operands or through -files0-from (file / stdin) vs per-root reference walks; metamorphic operands == files0',
          'Exploration: tens of thousands of lists of 0-5 starting points; stdout equals the in-order concatenation of the reference walk of each starting point with its spelling preserved; unexaminable starting points are diagnosed with non-zero exit while the others are still processed; -files0-from lists (names starting with -, containing newlines, empty names, with/without final NUL) equal the operand form whenever expressible.',
          'Trusts the reference walker; -sorted is given; an empty files0 list is not compared with no operands.', 'DESIGN.md §3 C18'),
- 'C16': ('property-based testing + bounded-exhaustive enumeration: format strings generated from the statement\'s grammar rendered by find on a tree of every creatable type x starting-point spellings x follow modes vs an independent renderer; identity checks (%p == -print, %H/%P recomposition, %y/%Y vs -type/-xtype)',
+ 'C16': ('property-based testing + bounded-exhaustive enumeration: format strings generated from the statement\'s grammar rendered by find on a tree of every creatable type x starting-point spellings x follow modes vs an independent renderer; identity checks (%p == -print, %H/%P recomposition, %y/%Y vs -type/-xtype); time directives on files with exact generated time stamps vs the decimal stamp, a calendar conversion written in the harness and the composition %X+ == its parts',
          'Exploration: every format of <= 2 (thorough 3) components over a 31-component alphabet plus tens of thousands of random formats (escapes, %%, 15 directives with flag and width, multi-byte literals) on entries of all types under -P/-H/-L and eleven spellings of the starting point, through -printf and -fprintf; output equals the independent rendering byte for byte.',
          'Reference renderer written from the statement over std::fs metadata; padding asserted on ASCII values; %f/%h left open where the last component / the part before it is not in normal form.', 'DESIGN.md §3 C16'),
  'C12': ('differential property-based testing + bounded-exhaustive enumeration against glibc fnmatch(3) (character-level, through transliteration of non-ASCII characters): the matcher behind -name/-path/-lname via a verif-hooks entry point, and end to end on real files and link targets',
